@@ -95,5 +95,7 @@ func normalizeOffers(orig []string) (norm []string) {
 
 func normalizeOffer(orig string) string {
 	const maxParts = 2
-	return strings.SplitN(orig, ";", maxParts)[0]
+	// optional whitespace is allowed on both sides of the ";" (RFC 7231 section 3.1.1.1):
+	// it is not part of the media type
+	return strings.TrimSpace(strings.SplitN(orig, ";", maxParts)[0])
 }
